@@ -565,6 +565,15 @@ theorem schedPass_spec (wf : Wf) {s : St} (h : Inv wf s) :
     rw [h2.2 c]
     exact h1.2.1.ctrl c f (hv.ext.ctrl c f hc)
 
+/-! ## the stage transition: nothing that the launch rules read is touched -/
+
+theorem advance_spec (wf : Wf) {s : St} (hc : Core s) :
+    Core (advance wf s) ∧ Ext s (advance wf s) := by
+  unfold advance
+  split
+  · exact ⟨⟨hc.good, hc.done, hc.pend⟩, ⟨fun _ _ h => h, fun _ h => h, rfl, fun _ => rfl⟩⟩
+  · exact ⟨hc, Ext.refl s⟩
+
 /-! ## the whole transition system -/
 
 theorem init_inv (wf : Wf) : Inv wf init := by
@@ -579,6 +588,7 @@ theorem step_spec (wf : Wf) {s : St} (h : Inv wf s) (op : Op) :
   | pm c => have := deliverPM_spec wf h.core c; exact ⟨h.of_ext this.1 this.2, this.2.ctrl⟩
   | kill => have := killAll_spec wf h.core; exact ⟨h.of_ext this.1 this.2, this.2.ctrl⟩
   | tick c => exact ⟨h, fun _ _ hc => hc⟩
+  | next => have := advance_spec wf h.core; exact ⟨h.of_ext this.1 this.2, this.2.ctrl⟩
 
 theorem foldl_inv (wf : Wf) (ops : List Op) : ∀ (s : St), Inv wf s →
     Inv wf (ops.foldl (step wf) s) ∧
